@@ -29,7 +29,20 @@ def standard_run(ck, P, replay_cases=None):
                 continue
             impl = ck.run_impl(exe, batch, logger=getattr(P, "LOGGER", "stdout"),
                                jobs=getattr(P, "JOBS", None))
-            model = ck.run_model(batch)
+            if hasattr(P, "model_case"):
+                # two-round protocol: oracle answers computed by the real code (e.g. Go's regexp on
+                # exactly the strings the model asks about) are passed to the model as inputs
+                mcases = [P.model_case(c, i) for c, i in zip(batch, impl)]
+                impl = [P.impl_view(c, i) for c, i in zip(batch, impl)]
+                skip = [k for k, mc in enumerate(mcases) if mc is None]
+                ck.coverage["skipped_by_impl"] = ck.coverage.get("skipped_by_impl", 0) + len(skip)
+                keep = [k for k in range(len(batch)) if mcases[k] is not None]
+                batch, impl, mcases = [batch[k] for k in keep], [impl[k] for k in keep], [mcases[k] for k in keep]
+            else:
+                mcases = batch
+            if not batch:
+                continue
+            model = ck.run_model(mcases)
             ck.compare(batch, impl, model, proj=getattr(P, "PROJ", None), canon=getattr(P, "CANON", None))
             for c, i in list(zip(batch, impl))[:3]:
                 samples.append({"case": c[:400], "impl": i[:400]})
